@@ -112,7 +112,7 @@ DSRejectsTree(c, tree) ==
 DSDiagHas(c)      == c.graft \notin {"SGD", "SQRT_N", "NONE"}
 DSMomInt8(c, sh)  == c.memred /\ Len(sh) > 1
 DSQuantStats(c)   == c.memred /\ c.rank = 0 /\ ~c.fd /\ c.mode = "pmap"
-DSFdMetrics(c)    == c.fd_metrics /\ c.fd
+DSFdMetrics(c)    == c.fd_metrics /\ c.fd /\ c.metrics    \* "ignored if not (metrics and FD)"
 
 FloatQV(sh, dt) == QV(Leaf(sh, dt), Nil, Nil, "float32", FALSE, sh)
 EmptyQV         == QV(Nil, Nil, Nil, "float32", FALSE, <<>>)
